@@ -6,6 +6,8 @@ CONSTANTS
   BgSeq <- BgOne
   Fixed = {"StartAll", "StopAll", "resolveAndAddPeer", "moveTorrent", "reserveID", "cleanLive", "cleanReset", "compactLocks", "dhtDropOnStop"}
   Budget = 0
+  Unbuffered = {}
+  SrcOver <- NoOver
   Allowed <- AnyPick
 INVARIANT TypeOK
 INVARIANT NoLockup
